@@ -1,7 +1,7 @@
 (* C06 — the schema parser: what is proved about acceptance.  Statements only. *)
 From Coq Require Import List.
 From GQL.model Require Import Base Utf8 Lexer Ast Parser Prog ParseQuery ParseSchema.
-From GQL.proofs Require Import ParserTotal ParseSchemaTotal NumberGrammar TypeRoundtrip TokenStream JsonRoundtrip ParseComplete ParseSchemaComplete Sizes SchemaSizes.
+From GQL.proofs Require Import ParserTotal ParseSchemaTotal NumberGrammar TypeRoundtrip TokenStream JsonRoundtrip ParseComplete ParseSchemaComplete Sizes SchemaSizes Layout.
 Import ListNotations.
 
 (* A schema document is returned only after the parser has been handed the end-of-input token, with
@@ -86,3 +86,11 @@ Proof.
   split; [|vm_compute; reflexivity].
   repeat constructor; cbn; try lia; try discriminate; try reflexivity; auto.
 Qed.
+
+(* Layout independence, and independence of the source index: the same tokens give the same document. *)
+Theorem C06_layout_independent : forall d items in1 in2 ix1 ix2 bi,
+  Forall (item_wok d) items -> (items <> [] \/ d F_S7 = true) ->
+  toks d in1 (flat_map flat_item items) -> toks d in2 (flat_map flat_item items) ->
+  exists x1 x2, parseSchema d 0 ix1 bi in1 = POk x1 /\ parseSchema d 0 ix2 bi in2 = POk x2 /\ erase_sdoc x1 = erase_sdoc x2.
+Proof. exact schema_layout_independent. Qed.
+Print Assumptions C06_layout_independent.
